@@ -108,7 +108,7 @@ def expected_call_spans(o, per, pixels, chunk, iters_by_group):
         return f"[{e_all}]"
     off = G.offsets_of(per)
     px = G.coq_px(pixels)
-    c = nnz if chunk is None else chunk
+    c = max(nnz, 1) if chunk is None else chunk          # balance_cooler: chunksize=None -> max(nnz, 1)
     parts = "; ".join(f"partition (bin1_offset {px} {C.z(lo)}) (bin1_offset {px} {C.z(hi)}) {C.z(c)}"
                       for lo, hi in zip(off[:-1], off[1:]))
     return f"[{e_all}; {parts}]"
@@ -123,6 +123,11 @@ def dedupe(seq):
 
 
 CORPUS = [
+    # D30 regression (fixed): empty cooler; cis_only with chunksize=None used to raise ValueError (partition step 0).
+    # Every chunk size and mode must agree: all-NaN weights, converged True
+    {"per": [2, 2], "pixels": [], "o": {"cis": True, "trans": False, "diags": 1, "mad": 0, "nnz": 0, "count": 0, "black": None, "tol": 1e-5, "iters": 200, "x0": None, "rescale": True}},
+    {"per": [2, 2], "pixels": [], "o": {"cis": False, "trans": False, "diags": 0, "mad": 0, "nnz": 0, "count": 0, "black": None, "tol": 1e-5, "iters": 200, "x0": None, "rescale": True}},
+    {"per": [2, 2], "pixels": [], "o": {"cis": False, "trans": True, "diags": 0, "mad": 0, "nnz": 0, "count": 0, "black": None, "tol": 1e-5, "iters": 200, "x0": None, "rescale": True}},
     # float64 count column with values in (0,1): min_nnz counts non-zero entries
     {"per": [3, 2], "pixels": [[i, j, (1 + (2 * i + 3 * j) % 7) / 8] for i in range(5) for j in range(i, 5)],
      "o": {"cis": False, "trans": False, "diags": 0, "mad": 0, "nnz": 3, "count": 0, "black": None, "tol": 1e-6, "iters": 200,
@@ -302,7 +307,7 @@ def _run(ctx, cooler, split, B, pool, pool4, maps, thorough, rng, tmp):
         os.remove(tmp / f"c{ci}.cool")
 
     # ------------------------------------------------------------ use_lock=True (global multiprocess lock around the HDF5 read)
-    lock_cs = cases[1]
+    lock_cs = cases[4]
     per, pixels, o = lock_cs["per"], lock_cs["pixels"], lock_cs["o"]
     F = G.dense_int(sum(per), pixels)
     b0, amb = G.ref_masks(o, per, F)
@@ -329,7 +334,7 @@ def _run(ctx, cooler, split, B, pool, pool4, maps, thorough, rng, tmp):
         if ncli >= (8 if thorough else 3):
             break
         per, pixels, o = cs["per"], cs["pixels"], dict(cs["o"])
-        if o["x0"] is not None or o["black"] or o["count"] != int(o["count"]):
+        if o["x0"] is not None or o["black"] or o["count"] != int(o["count"]) or not pixels:
             continue
         o["rescale"] = True
         n = sum(per)
